@@ -475,7 +475,9 @@ package factstore
 // Constructors allocate; they do not change existing stores.
 //@ func NewTemporalStore(opts)
 //@   trusted
+//@   opt freshresult
 //@   modifies nothing
+//@   ensures result != nil
 
 // ---- C06: IndexedInMemoryStore answers a pattern query only with matching atoms ---------------------------------
 //@ spec func iarity(s IndexedInMemoryStore) bool =
